@@ -30,6 +30,7 @@ def run(chk):
     baseunits(chk, rng)
     chk.mark("base-units")
     attribute_access(chk)
+    define_after_reading(chk)
     bundled(chk, rng, thorough)
     chk.mark("bundled")
     return chk.finish(
@@ -176,6 +177,37 @@ def attribute_access(chk):
         want2 = "qq" if want1 == "S1_qq" else want1
         if (g1, g2) != (want1, want2):
             chk.diverge({"clause": "system-attribute"}, {"lines": lines, "spelling": spelling, "expected": [want1, want2], "observed": [g1, g2]})
+
+
+def define_after_reading(chk):
+    """a unit defined after construction belongs to the root group (and to every group / system built on root) whether or not the
+    members had been read before: the answers after define() are those of a registry in which nothing was asked earlier"""
+    import pint
+    lines = ["a = [A]", "b = 2 a", "@group g1", "  c = 3 a", "@end", "@system S using g1", "  a", "@end", "@system R using root", "  a", "@end"]
+
+    def answers(u):
+        return {"root": sorted(u.get_group("root").members), "g1": sorted(u.get_group("g1").members),
+                "S": sorted(u.get_system("S").members), "R": sorted(u.get_system("R").members), "dir(R)": sorted(x for x in dir(u.sys.R) if not x.startswith("_"))}
+
+    for src in ("tiny", "bundled"):
+        for asked_before in (False, True):
+            chk.case(("define-after-reading", src, asked_before))
+            try:
+                u = pint.UnitRegistry(lines) if src == "tiny" else pint.UnitRegistry()
+                q = answers if src == "tiny" else (lambda r: {"root": sorted(r.get_group("root").members), "SI": sorted(r.get_system("SI").members),
+                                                            "dir(SI)": sorted(x for x in dir(r.sys.SI) if not x.startswith("_"))})
+                before = q(u) if asked_before else None
+                u.define("zz9 = 7 * %s" % ("a" if src == "tiny" else "meter"))
+                after = q(u)
+            except Exception as e:
+                chk.diverge({"clause": "define-after-reading-raises", "exc": type(e).__name__}, {"registry": src, "asked_before": asked_before})
+                continue
+            expect_in = ["root", "R", "dir(R)"] if src == "tiny" else ["root", "SI", "dir(SI)"]
+            missing = [k for k in expect_in if "zz9" not in after[k]]
+            extra = [k for k in after if k not in expect_in and "zz9" in after[k]]
+            if missing or extra:
+                chk.diverge({"clause": "new-unit-membership", "asked_before": asked_before, "registry": src, "missing": missing[0] if missing else None},
+                            {"registry": src, "asked_before": asked_before, "missing_from": missing, "unexpected_in": extra})
 
 
 # ------------------------------------------------------------------------------------------------ bundled registry
